@@ -77,7 +77,8 @@ Theorem c05_window : forall st e id frm re ack p t,
   In (HData id frm re ack p t) (snd (host_step st e)) ->
   (exists c, cur (fst (host_step st e)) = Some c /\ cid c = id /\ cfrm c = frm /\ cpayload c = p /\ cfut c = FPending)
   /\ length (filter (fun o => match o with HData _ _ _ _ _ _ => true | _ => false end) (snd (host_step st e))) = 1%nat
-  /\ (forall c0, cur st = Some c0 -> cid c0 <> id -> cfut c0 <> FPending \/ e = Tick \/ has_frame (fun _ => true) e).
+  /\ (forall c0, cur st = Some c0 -> cid c0 <> id ->
+        (exists o, In (HDone (cid c0) o) (snd (host_step st e))) \/ memN (cid c0) (cancelled st) = true).
 Proof. exact window. Qed.
 
 (* frame numbers of first transmissions are consecutive modulo 8 *)
